@@ -291,10 +291,25 @@ def ch_e2e(ctx, cases=None) -> Channel:
                 if hit:
                     picked.append(hit)
         cases = picked
+    # history with a change of the stored media: every static manifest of stream synmut, then the file synmut_v2 is
+    # deleted (as the "delete media" page does), then exactly the same URLs again
+    mut = [(name, mode) for name, mode in temps]
+    first = [("synmut", f"/dash/{mode}/synmut/{name}" + ("?timeline=1" if (k % 2 and mode == "vod") else ""), mode)
+             for k, (name, mode) in enumerate(mut)]
+    if not ctx.thorough:
+        first = first[:6] + [c for c in first[6:] if c[2] == "odvod"][:2]
+    cases = cases + first + [("__delete__", "synmut:synmut_v2", "")] + first
     if given is not None:
         cases = given
+        if any(c[0] == "synmut" for c in given):
+            cases = list(given) + [("__delete__", "synmut:synmut_v2", "")] + list(given)
     with appboot.Clock(now):
         for ci, (stream, url, mode) in enumerate(cases):
+            if stream == "__delete__":
+                st_, name_ = url.split(":")
+                ok_ = segchecks.delete_media_file(app, st_, name_)
+                ch.count(f"history:media-file-deleted={ok_}")
+                continue
             trk = segchecks.tracks(app, stream)
             if ci % 2 == 0:
                 # history: the same process has just served a *live* manifest of the same stream (timeline and
@@ -318,6 +333,11 @@ def ch_e2e(ctx, cases=None) -> Channel:
                                            "what": "declared presentation duration differs from the timing reference by more than 1 ms"})
             for rep in mpd.reps:
                 if rep.rep_id not in trk:
+                    # "describe the stored media … exactly": a Representation that is not (or no longer) among the
+                    # stream's stored media files must not be listed
+                    ch.oracle_failures.append({"kind": "lists-unstored-representation", "url": url, "rep": rep.rep_id,
+                                               "what": f"the manifest lists Representation {rep.rep_id}, which is not "
+                                                       f"among the stored media files {sorted(trk)}"})
                     continue
                 t = trk[rep.rep_id]
                 n = len(t.durs)
